@@ -53,6 +53,9 @@ func c18Gen(r *rand.Rand, tier string) any {
 		op.Dry = r.IntN(8) == 0
 		op.Twice = r.IntN(5) == 0 && sc.Mode != "cycle"
 		op.Reload = r.IntN(6) == 0
+		if r.IntN(5) == 0 && !op.Twice {
+			op.N = 1 + r.IntN(120) // this I/O operation of the process fails
+		}
 		if r.IntN(4) == 0 {
 			for ti := range shadow.Targets {
 				if r.IntN(4) == 0 {
@@ -61,6 +64,10 @@ func c18Gen(r *rand.Rand, tier string) any {
 			}
 		}
 		sc.Ops = append(sc.Ops, op)
+		if op.Dry && !op.Twice && op.N == 0 && r.IntN(2) == 0 {
+			// the real build of the same tree right after the dry run
+			sc.Ops = append(sc.Ops, opSpec{Op: "build", Label: op.Label, Always: op.Always, Fail: op.Fail})
+		}
 	}
 	return sc
 }
@@ -77,7 +84,7 @@ func expectedLines(text string) []string {
 }
 
 // checkRunEvents checks the events of one Run (between two RunDone events).
-func checkRunEvents(h *histRun, op *opSpec, evs []eventRec, runErr error, written map[string]string, started map[string]int, dry bool) *simcheck.Violation {
+func checkRunEvents(h *histRun, op *opSpec, evs []eventRec, runErr error, written map[string]string, started map[string]int, dry bool, ioFault bool) *simcheck.Violation {
 	words := map[string][]eventRec{}
 	var order []string
 	runDone := 0
@@ -136,7 +143,7 @@ func checkRunEvents(h *histRun, op *opSpec, evs []eventRec, runErr error, writte
 			err := w[0].Err
 			_, cyc := err.(runner.CyclicDependencyError)
 			missing := err != nil && strings.Contains(err.Error(), "missing dependency")
-			if !cyc && !missing && !fingerprintError(err) && !(err != nil && strings.Contains(err.Error(), "no such file")) {
+			if !cyc && !missing && !ioFault && !fingerprintError(err) && !(err != nil && strings.Contains(err.Error(), "no such file")) {
 				return bad(fmt.Sprintf("a failed event without an evaluating event requires a missing or cyclic dependency, got %v", err))
 			}
 		case "TargetEvaluating":
@@ -165,7 +172,8 @@ func checkRunEvents(h *histRun, op *opSpec, evs []eventRec, runErr error, writte
 				return simcheck.V("output-lines", "target %s wrote %q but the lines delivered are %q (expected %q)", l, written[l], got, want)
 			}
 			evaluating := w[0].Kind == "TargetEvaluating"
-			if !dry && evaluating != (started[l] > 0) {
+			// (an injected I/O error between the evaluating event and the body keeps the body from running)
+			if !dry && !ioFault && evaluating != (started[l] > 0) {
 				return simcheck.V("evaluating-vs-body", "target %s: evaluating reported = %v but its body ran %d times", l, evaluating, started[l])
 			}
 			if dry && started[l] > 0 {
@@ -197,9 +205,29 @@ func c18Exec(scAny any, c *simcheck.Ctx) *simcheck.Violation {
 	if sc.Spec == nil || len(sc.Spec.Targets) == 0 {
 		return nil
 	}
+	var dryEval map[string]bool
+	dryAt := -2
 	each := func(h *histRun, i int, op *opSpec, res *procResult) *simcheck.Violation {
 		if op.Op != "build" || !res.Ran {
 			return nil
+		}
+		// "evaluating is reported exactly when the body runs (or would, in a dry run)"
+		if op.Dry && !op.Twice && op.N == 0 && res.RunErr == nil {
+			dryEval, dryAt = map[string]bool{}, i
+			for _, e := range h.w.events {
+				if e.Kind == "TargetEvaluating" && h.p.target(e.Label) != nil {
+					dryEval[e.Label] = true
+				}
+			}
+		} else if !op.Dry && dryAt == i-1 && i > 0 && sc.Ops[i-1].Label == op.Label && sc.Ops[i-1].Always == op.Always && len(op.Fail) == 0 && res.RunErr == nil && !op.Reload {
+			ran := map[string]bool{}
+			for _, l := range h.startsIn(i) {
+				ran[l] = true
+			}
+			if setString(ran) != setString(dryEval) {
+				return simcheck.V("dry-evaluating-vs-body", "a dry run of %s reported evaluating for {%s} but the real build of the same tree ran the bodies of {%s}", op.Label, setString(dryEval), setString(ran))
+			}
+			c.St.Count("dry_vs_real_compared", 1)
 		}
 		// split the event stream at RunDone (a second Run on the same project follows the first)
 		var runs [][]eventRec
@@ -253,7 +281,7 @@ func c18Exec(scAny any, c *simcheck.Ctx) *simcheck.Violation {
 				runErr = res.FirstRunErr
 			}
 			c.St.Count("runs_checked", 1)
-			if v := checkRunEvents(h, op, evs, runErr, written, started, op.Dry); v != nil {
+			if v := checkRunEvents(h, op, evs, runErr, written, started, op.Dry, res.Sim.IOOps >= op.N && op.N > 0 && len(res.Sim.FaultsHit) > 0); v != nil {
 				if op.Twice {
 					v.Msg = fmt.Sprintf("(run %d of 2 on one loaded project) %s", ri+1, v.Msg)
 				}
@@ -263,6 +291,8 @@ func c18Exec(scAny any, c *simcheck.Ctx) *simcheck.Violation {
 		}
 		return nil
 	}
+	ioErrOps = true
+	defer func() { ioErrOps = false }()
 	_, _, v, _ := runHistory(c, sc, "", nil, each)
 	return v
 }
